@@ -232,7 +232,7 @@ func tail(s string, n int) string {
 func init() {
 	extraProps["C11"] = func(w *Worker, seed uint64, checks int) ([]string, string) {
 		return rapidRound(seed, checks*4, func(rt *rapid.T) {
-			rec := &recorder{in: rapidChooser{rt}}
+			rec := newRecorder(rt)
 			c := DrawStreamCase(rec)
 			v, st := ExecStreamCase(c)
 			o := w.Out
@@ -304,7 +304,7 @@ func init() {
 			}
 		}
 		if c == nil {
-			c = DrawStreamCase(&replayChooser{draws: rf.Draws})
+			c = DrawStreamCase(&replayChooser{Draws: rf.Draws})
 		}
 		v, _ := ExecStreamCase(c)
 		if v != nil && v.Class == rf.Violation.Class {
